@@ -1225,6 +1225,7 @@ class SSHClientChannel(SSHChannel, Generic[AnyStr]):
                         self, x11_display, x11_auth_path, x11_single_connection)
             except ValueError as exc:
                 if x11_forwarding != 'ignore_failure':
+                    self.close()
                     raise ChannelOpenError(OPEN_REQUEST_X11_FORWARDING_FAILED,
                                            str(exc)) from None
                 else:
@@ -1244,6 +1245,7 @@ class SSHClientChannel(SSHChannel, Generic[AnyStr]):
                         self._conn.detach_x11_listener(self)
 
                     if x11_forwarding != 'ignore_failure':
+                        self.close()
                         raise ChannelOpenError(
                             OPEN_REQUEST_X11_FORWARDING_FAILED,
                             'X11 forwarding request failed')
